@@ -96,6 +96,7 @@ package generator
 //@   ensures [C06,C19] nil-never-checked: v.isNillable ==> !rejects(emitted(out), sig1(v.fieldName, nil_ptr())) && !panics(emitted(out), sig1(v.fieldName, nil_ptr()))
 //@   ensures [C19] no-panic: forall nb int :: forall nr int :: forall mt bool :: str_val(nb, nr) ==> !panics(emitted(out), sig1(v.fieldName, v.isNillable ? ptr_to(gstr(nb, nr, mt)) : gstr(nb, nr, mt)))
 //@   ensures [C01] regexp-import: uses_pkg(emitted(out), "regexp") <==> v.pattern != ""
+//@   ensures [C06] matches-the-schemas-pattern: v.pattern != "" ==> regexp_pattern_is(emitted(out), v.pattern)
 
 // ---- arrays ----------------------------------------------------------------
 // garr(k, isnil, n): the field holds arrays nested k deep; the level-k array
@@ -509,10 +510,10 @@ package generator
 // same string (say "#/$defs/Base") names different definitions in different
 // files, so a generator must start with its own, empty map (C10, C20).
 //@ func newSchemaGenerator
-//@   props C10 C20 C11
+//@   props C10 C20 C11 C04
 //@   option shape-zero g schema output
 //@   assigns nothing
-//@   ensures [C10,C20,C11] own-ref-map: fresh_map(result.schemaTypesByRef) && len(result.schemaTypesByRef) == 0
+//@   ensures [C10,C20,C11,C04] own-ref-map: fresh_map(result.schemaTypesByRef) && len(result.schemaTypesByRef) == 0
 //@   ensures [C10,C20] carries-arguments: result.Generator == g && result.schema == schema && result.schemaFileName == fileName && result.output == output
 
 // ---- following a $ref into another file (generateReferencedType): data flow ----
@@ -525,3 +526,40 @@ package generator
 //@   arg-from addFile 0 call:QualifiedFileName:0
 //@   arg-from findOutputFileForSchemaID 0 field:ID
 //@   arg-from Load 0 call:extractRefNames:1
+
+// ---- the four bound keywords reach type selection in their own positions --------
+// PrimitiveTypeFromJSONSchemaType(jsType, format, pointer, minIntSize, &Minimum,
+// &Maximum, &ExclusiveMinimum, &ExclusiveMaximum): all four are pointers of
+// matching types, so a crossed pair compiles (C05, C15).
+//@ func (*schemaGenerator).generateType
+//@   props C05 C15 C02
+//@   arg-from PrimitiveTypeFromJSONSchemaType 4 field:Minimum
+//@   arg-from PrimitiveTypeFromJSONSchemaType 5 field:Maximum
+//@   arg-from PrimitiveTypeFromJSONSchemaType 6 field:ExclusiveMinimum
+//@   arg-from PrimitiveTypeFromJSONSchemaType 7 field:ExclusiveMaximum
+//@ func (*schemaGenerator).generateTypeInline@dataflow
+//@   props C05 C15 C02
+//@   arg-from PrimitiveTypeFromJSONSchemaType 4 field:Minimum
+//@   arg-from PrimitiveTypeFromJSONSchemaType 5 field:Maximum
+//@   arg-from PrimitiveTypeFromJSONSchemaType 6 field:ExclusiveMinimum
+//@   arg-from PrimitiveTypeFromJSONSchemaType 7 field:ExclusiveMaximum
+//@ func (*schemaGenerator).generateEnumType
+//@   props C05 C15 C02 C08
+//@   arg-from PrimitiveTypeFromJSONSchemaType 4 field:Minimum
+//@   arg-from PrimitiveTypeFromJSONSchemaType 5 field:Maximum
+//@   arg-from PrimitiveTypeFromJSONSchemaType 6 field:ExclusiveMinimum
+//@   arg-from PrimitiveTypeFromJSONSchemaType 7 field:ExclusiveMaximum
+
+// ---- distinct type names (uniqueTypeName) ----------------------------------------
+// The name handed out is the requested one if it is free (or only reserved by a
+// declaration still under construction), otherwise the first suffixed name that
+// no declaration — finished or under construction — holds (C14: distinct schema
+// types get distinct type names).
+//@ func (*output).uniqueTypeName
+//@   props C14 C20 C01
+//@   shape o = decls() | decls(T) | decls(T?) | decls(T,T_1) | decls(T,T_1?) | decls(T,T_1,T_2?) | decls(X)
+//@   shape name = "T"
+//@   assigns nothing
+//@   ensures [C14,C20,C01] free-or-own-placeholder: result == "T" || !map_has(o.declsByName, result)
+//@   ensures [C14] base-name-when-free: (!map_has(o.declsByName, "T") ==> result == "T")
+//@   ensures [C14,C20,C01] never-a-finished-name: map_has(o.declsByName, "T") && o.declsByName["T"].Type != nil ==> result != "T"
